@@ -295,6 +295,10 @@ func randScalar(rng *Rng, fd protoreflect.FieldDescriptor) protoreflect.Value {
 	case protoreflect.BoolKind:
 		return protoreflect.ValueOfBool(rng.Bool())
 	case protoreflect.EnumKind:
+		// every small value (declared, first undeclared, ...) as well as the extremes
+		if rng.Intn(4) != 0 {
+			return protoreflect.ValueOfEnum(protoreflect.EnumNumber(int32(rng.Range(-2, 40))))
+		}
 		return protoreflect.ValueOfEnum(protoreflect.EnumNumber(int32(v)))
 	case protoreflect.Int32Kind, protoreflect.Sint32Kind, protoreflect.Sfixed32Kind:
 		return protoreflect.ValueOfInt32(int32(v))
@@ -482,6 +486,14 @@ func genC06(tier string, rng *Rng) {
 	for _, w := range presenceSweep(newOut, evReach, nil) {
 		add("encout", [][]byte{w})
 	}
+	// 2b. enum sweep: every enum field of every (nested) message type, values -2..40 and the int32 extremes,
+	//     each set alone in an otherwise minimal message that reaches the field
+	for _, w := range enumSweep(func() proto.Message { return &rwp.InboundMessage{} }) {
+		add("encin", [][]byte{w})
+	}
+	for _, w := range enumSweep(func() proto.Message { return &rwp.OutboundMessage{} }) {
+		add("encout", [][]byte{w})
+	}
 	// 3. random messages through reflection (sparse and dense presence), and mutated wire bytes
 	for n := 0; n < 2500*mult; n++ {
 		p := rng.Pick([]int{15, 40, 70, 100})
@@ -507,6 +519,69 @@ func genC06(tier string, rng *Rng) {
 	}
 	flush()
 	meta(map[string]interface{}{"property": "C06", "kind_status_histogram": c06hist})
+}
+
+// enumSweep walks the message type tree; for each enum field found at some path it builds messages
+// in which the path is populated (one element for repeated fields; HWCIDs = [7] so that states are
+// encoded) and the enum takes each value of the sweep.
+func enumSweep(newRoot func() proto.Message) [][]byte {
+	var res [][]byte
+	vals := []int32{}
+	for v := int32(-2); v <= 40; v++ {
+		vals = append(vals, v)
+	}
+	vals = append(vals, 127, 128, 255, 256, 1<<31-1, -(1 << 31))
+	type step struct {
+		fd protoreflect.FieldDescriptor
+	}
+	var walk func(md protoreflect.MessageDescriptor, path []protoreflect.FieldDescriptor, depth int)
+	build := func(path []protoreflect.FieldDescriptor, enumFd protoreflect.FieldDescriptor, v int32) {
+		root := newRoot()
+		m := root.ProtoReflect()
+		for _, fd := range path {
+			if fd.IsList() {
+				l := m.Mutable(fd).List()
+				e := l.NewElement()
+				l.Append(e)
+				m = l.Get(l.Len() - 1).Message()
+			} else {
+				m = m.Mutable(fd).Message()
+			}
+			// make states addressable so that the encoder reaches their sub-messages
+			if idf := m.Descriptor().Fields().ByName("HWCIDs"); idf != nil && idf.IsList() {
+				m.Mutable(idf).List().Append(protoreflect.ValueOfUint32(7))
+			}
+		}
+		if enumFd.IsList() {
+			m.Mutable(enumFd).List().Append(protoreflect.ValueOfEnum(protoreflect.EnumNumber(v)))
+		} else {
+			m.Set(enumFd, protoreflect.ValueOfEnum(protoreflect.EnumNumber(v)))
+		}
+		if b, err := proto.Marshal(root); err == nil {
+			res = append(res, b)
+		}
+	}
+	walk = func(md protoreflect.MessageDescriptor, path []protoreflect.FieldDescriptor, depth int) {
+		if depth > 5 {
+			return
+		}
+		fds := md.Fields()
+		for i := 0; i < fds.Len(); i++ {
+			fd := fds.Get(i)
+			if fd.IsMap() {
+				continue
+			}
+			if fd.Kind() == protoreflect.EnumKind {
+				for _, v := range vals {
+					build(path, fd, v)
+				}
+			} else if fd.Kind() == protoreflect.MessageKind {
+				walk(fd.Message(), append(append([]protoreflect.FieldDescriptor{}, path...), fd), depth+1)
+			}
+		}
+	}
+	walk(newRoot().ProtoReflect().Descriptor(), nil, 0)
+	return res
 }
 
 func mutate(rng *Rng, b []byte) []byte {
